@@ -30,11 +30,11 @@ REAL_VS_STUB = {
     "real": ["stackscope.extract / extract_iter / unwrap_stackitem / elaborate_frame / code_dispatch / FrameIterator", "CPython generator frames"],
     "stub": ["synthetic item types T0..T5", "table-driven hooks", "tree reference model (oracle)"],
 }
-RARE_PROBES = ["guard_tripped", "prune_inside_inserted", "insert_on_innermost", "iterator_result", "leaf_list"]
+RARE_PROBES = ["next_inner_was_deeper", "guard_tripped", "prune_inside_inserted", "insert_on_innermost", "iterator_result", "leaf_list"]
 LEGS = [
-    {"name": "model312", "python": "3.12", "quick": 12000, "thorough": 400000, "quick_s": 40, "thorough_s": 420,
+    {"name": "model312", "python": "3.12", "quick": 60000, "thorough": 1500000, "quick_s": 40, "thorough_s": 420,
      "run_timeout": 20, "hang_is_violation": True},
-    {"name": "model39", "python": "3.9", "quick": 3000, "thorough": 60000, "quick_s": 30, "thorough_s": 240,
+    {"name": "model39", "python": "3.9", "quick": 15000, "thorough": 300000, "quick_s": 30, "thorough_s": 240,
      "run_timeout": 20, "hang_is_violation": True},
 ]
 
@@ -288,7 +288,8 @@ def norm_leaf(leaf):
 #    inward of F) and stops at the first shallower item; a replacement does the
 #    same and then puts its items (depth of F) in that place; a sequence ending
 #    in next_inner only inserts its other items (depth of F) before next_inner,
-#    which stays where and as deep as it was;
+#    which stays where it was and becomes no deeper than F (so a PRUNE from inside
+#    the inserted items stops at it, the use the Trio thread glue makes of this form);
 #  * 100 unwraps in a row without reaching a frame or an irreducible item give an
 #    error and make the current item irreducible.
 # The model is a flat list of (spec, depth) built by a recursive expansion; it
@@ -357,6 +358,12 @@ def model(table, scripts, root, ctx):
             new = expand_seq(act[1], d)
             new = [(s, dd, "ins") for (s, dd) in new]
             sig.append(("insert", len(new), len(pending), pending[0][1] - d if pending else None))
+            if pending and pending[0][1] > d:
+                # the inserted items sit between F and next_inner: next_inner is no
+                # deeper than F (a PRUNE from inside the inserted items stops at it);
+                # if it was shallower it stays shallower (its own PRUNE reaches its callees)
+                ctx.stat("next_inner_was_deeper")
+                pending[0] = (pending[0][0], d) + tuple(pending[0][2:])
             pending[0:0] = new
             continue
         removed = 0
@@ -397,6 +404,14 @@ def run(ctx):
     if sig or m_err:
         ctx.cover(repr((sig, isinstance(m_leaf, list), m_leaf is None, m_err)))
     ctx.sample = dict(ctx.case, result_frames=r_frames, result_leaf=repr(r_leaf_n))
+    if m_err:
+        # Once the 100-step guard has tripped, the item it tripped on is irreducible
+        # only by decree: the real code unwraps it again whenever a hook redirects the
+        # rest (its depth drifts by 100 each time), so frames/leaf after that point are
+        # not determined by the documented rules.  Only: error reported, no hang, no raise.
+        if r_err is None:
+            ctx.violate("error_flag_differs", "the 100-step guard tripped in the model but Stack.error is None")
+        return
     if r_frames != m_frames:
         ctx.violate(
             "frames_differ_from_model",
